@@ -21,6 +21,7 @@
   knowledge base sets `$relevant_chunks = "\n"`; only the `general` dialog (no user-defined flows) is scripted.
 -/
 import NemoVerif.Models.V1Interp
+import NemoVerif.Generated.C16Resolve
 
 namespace NemoVerif.RailsInterp
 open NemoVerif.V1Interp
@@ -73,7 +74,76 @@ def strOf : V → String
   | .str s => s
   | _ => ""
 
-/-- The events `create event …` creates, keyed by the canonical JSON of the action parameters AS THEY STAND IN THE
+/-! ### `create event …`: the two places where `$name` references are replaced
+
+  `create event UserMessage(text=$user_message)` compiles to `run_action create_event` with the action parameters
+  `{"event": {"_type": "UserMessage", "text": "$user_message"}}`.  On its way to the created event the value `"$user_message"`
+  passes two pieces of code:
+
+  1. `RuntimeV1_0._process_start_action` ("If there are parameters which are variables, we replace with actual values"): looks at
+     the TOP-LEVEL parameters only; `event` is a dict, so its values reach the action as written (`startActionResolve false`).
+     A runtime that also resolves inside dict / list parameters is `startActionResolve true`.
+  2. the action `create_event` ("basic support for referring variables as values"): every string value `v` of the event with
+     `v[0] == "$"` is replaced by `context.get(v[1:])` (`createEventResolve`; `v[0]` raises IndexError on the empty string: `none`).
+
+  Which of the two shapes each site has is DATA regenerated from the source on every run (`Generated.C16Resolve`).  The caller's
+  text is the VALUE the reference resolves to; it is never looked at again: `createEventAction_eq` (one resolution), used by every
+  transition lemma about a `create event` statement, and `create_event_text_opaque` below. -/
+
+/-- `"$name"` ↦ `some "name"`; every other string (the empty one, `" $x"`, `"a$"`) ↦ `none` -/
+def dollarRef (s : String) : Option String :=
+  match s.toList with
+  | '$' :: rest => some (String.ofList rest)
+  | _ => none
+
+/-- `_process_start_action` on a value INSIDE the dict parameter `event`: untouched unless the runtime resolves nested references
+    (`context[var_name] if var_name in context else value`) -/
+def startActionResolve (nested : Bool) (σ : Ctx) (v : V) : V :=
+  if nested then
+    match v with
+    | .str s => (match dollarRef s with
+        | some n => (match σ.lookup n with | some x => x | none => v)
+        | none => v)
+    | _ => v
+  else v
+
+/-- `create_event`: `if isinstance(v, str) and v[0] == "$": event_dict[k] = context.get(v[1:])` (`indexTest`: the test is
+    `v[0] == "$"`, which raises on `""` — `none`; otherwise `v.startswith("$")`) -/
+def createEventResolve (indexTest : Bool) (σ : Ctx) (v : V) : Option V :=
+  match v with
+  | .str s =>
+    if indexTest && s == "" then none
+    else match dollarRef s with
+      | some n => some (σ.get n)
+      | none => some v
+  | _ => some v
+
+/-- the `create event` statements of the generated program: canonical JSON of the action parameters AS THEY STAND IN THE GENERATED
+    PROGRAM ↦ event type and the raw (unresolved) property values -/
+def eventSpec (params : String) : Option (String × List (String × String)) :=
+  if params == "{\"event\": {\"_type\": \"StartInputRails\"}}" then some ("StartInputRails", [])
+  else if params == "{\"event\": {\"_type\": \"InputRailsFinished\"}}" then some ("InputRailsFinished", [])
+  else if params == "{\"event\": {\"_type\": \"StartOutputRails\"}}" then some ("StartOutputRails", [])
+  else if params == "{\"event\": {\"_type\": \"OutputRailsFinished\"}}" then some ("OutputRailsFinished", [])
+  else if params == "{\"event\": {\"_type\": \"StartInputRail\", \"flow_id\": \"$triggered_input_rail\"}}" then some ("StartInputRail", [("flow_id", "$triggered_input_rail")])
+  else if params == "{\"event\": {\"_type\": \"InputRailFinished\", \"flow_id\": \"$triggered_input_rail\"}}" then some ("InputRailFinished", [("flow_id", "$triggered_input_rail")])
+  else if params == "{\"event\": {\"_type\": \"StartOutputRail\", \"flow_id\": \"$triggered_output_rail\"}}" then some ("StartOutputRail", [("flow_id", "$triggered_output_rail")])
+  else if params == "{\"event\": {\"_type\": \"OutputRailFinished\", \"flow_id\": \"$triggered_output_rail\"}}" then some ("OutputRailFinished", [("flow_id", "$triggered_output_rail")])
+  else if params == "{\"event\": {\"_type\": \"UserMessage\", \"text\": \"$user_message\"}}" then some ("UserMessage", [("text", "$user_message")])
+  else if params == "{\"event\": {\"_type\": \"BotMessage\", \"text\": \"$bot_message\"}}" then some ("BotMessage", [("text", "$bot_message")])
+  else if params == "{\"event\": {\"_type\": \"StartUtteranceBotAction\", \"script\": \"$user_message\"}}" then some ("StartUtteranceBotAction", [("script", "$user_message")])
+  else if params == "{\"event\": {\"_type\": \"StartUtteranceBotAction\", \"script\": \"$bot_message\"}}" then some ("StartUtteranceBotAction", [("script", "$bot_message")])
+  else none
+
+/-- the action `create_event` behind `_process_start_action`, both reference-replacing sites as parameters -/
+def createEventAction (nested indexTest : Bool) (params : String) (σ : Ctx) : Option Event :=
+  match eventSpec params with
+  | none => none
+  | some (ty, raw) =>
+    (raw.mapM fun kv => (createEventResolve indexTest σ (startActionResolve nested σ (.str kv.2))).map fun v => (kv.1, v)).map
+      fun ps => Event.other ty ps
+
+/-- SPECIFICATION (every reference resolved exactly once against the context): the events `create event …` creates, keyed by the canonical JSON of the action parameters AS THEY STAND IN THE
     GENERATED PROGRAM (an edit of a `create event` line in llm_flows.co changes the key ⇒ `none`). -/
 def createdEvent (params : String) (σ : Ctx) : Option Event :=
   if params == "{\"event\": {\"_type\": \"StartInputRails\"}}" then some (.other "StartInputRails" [])
@@ -98,6 +168,39 @@ def createdEvent (params : String) (σ : Ctx) : Option Event :=
     some (.other "StartUtteranceBotAction" [("script", σ.get "bot_message")])
   else none
 
+open NemoVerif.Generated.C16Resolve in
+/-- **one resolution**: with the shapes the two sites have in the current source (`Generated.C16Resolve`: top-level-only
+    replacement in `_process_start_action`, one pass in `create_event`), the event `create_event` builds is the specification
+    `createdEvent` — each `$name` of the program replaced by the context value, once.  (If `_process_start_action` resolved
+    inside dict parameters as well, the value would be resolved a second time by `create_event`: `double_resolution_witness`.) -/
+@[simp] theorem createEventAction_eq (params : String) (σ : Ctx) :
+    createEventAction startActionNested createEventIndexTest params σ = createdEvent params σ := by
+  by_cases h0 : params = "{\"event\": {\"_type\": \"StartInputRails\"}}"
+  · subst h0; rfl
+  by_cases h1 : params = "{\"event\": {\"_type\": \"InputRailsFinished\"}}"
+  · subst h1; rfl
+  by_cases h2 : params = "{\"event\": {\"_type\": \"StartOutputRails\"}}"
+  · subst h2; rfl
+  by_cases h3 : params = "{\"event\": {\"_type\": \"OutputRailsFinished\"}}"
+  · subst h3; rfl
+  by_cases h4 : params = "{\"event\": {\"_type\": \"StartInputRail\", \"flow_id\": \"$triggered_input_rail\"}}"
+  · subst h4; rfl
+  by_cases h5 : params = "{\"event\": {\"_type\": \"InputRailFinished\", \"flow_id\": \"$triggered_input_rail\"}}"
+  · subst h5; rfl
+  by_cases h6 : params = "{\"event\": {\"_type\": \"StartOutputRail\", \"flow_id\": \"$triggered_output_rail\"}}"
+  · subst h6; rfl
+  by_cases h7 : params = "{\"event\": {\"_type\": \"OutputRailFinished\", \"flow_id\": \"$triggered_output_rail\"}}"
+  · subst h7; rfl
+  by_cases h8 : params = "{\"event\": {\"_type\": \"UserMessage\", \"text\": \"$user_message\"}}"
+  · subst h8; rfl
+  by_cases h9 : params = "{\"event\": {\"_type\": \"BotMessage\", \"text\": \"$bot_message\"}}"
+  · subst h9; rfl
+  by_cases h10 : params = "{\"event\": {\"_type\": \"StartUtteranceBotAction\", \"script\": \"$user_message\"}}"
+  · subst h10; rfl
+  by_cases h11 : params = "{\"event\": {\"_type\": \"StartUtteranceBotAction\", \"script\": \"$bot_message\"}}"
+  · subst h11; rfl
+  simp [createEventAction, createdEvent, eventSpec, h0, h1, h2, h3, h4, h5, h6, h7, h8, h9, h10, h11]
+
 /-- `context_updates[action_result_key] = return_value`, emitted only when some value changes -/
 def resultEvents (σ : Ctx) (name : String) (upd : Ctx) : List Event :=
   (if upd.any (fun kv => σ.get kv.1 != kv.2) then [Event.contextUpdate upd] else []) ++ [Event.actionFinished name true]
@@ -114,7 +217,7 @@ def railResult (r : IRail) (text : String) : V :=
     the call means for the trace.  `none` = an action this model does not script. -/
 def actionEvents (s : Setup) (σ : Ctx) (name params : String) (rk : Option String) : Option (List Event × List Obs) :=
   if name == "create_event" then
-    match createdEvent params σ with
+    match createEventAction Generated.C16Resolve.startActionNested Generated.C16Resolve.createEventIndexTest params σ with
     | some ev =>
       let obs := match ev with
         | .other "StartUtteranceBotAction" ps => [Obs.utter (strOf ((ps.lookup "script").getD .none))]
